@@ -868,6 +868,8 @@ func (s Settings) Apply() (restore func()) {
 		zerolog.LevelFieldMarshalFunc = func(l zerolog.Level) string { return strings.ToUpper(l.String()) }
 	case "total":
 		zerolog.LevelFieldMarshalFunc = TotalLevelText
+	case "merged":
+		zerolog.LevelFieldMarshalFunc = MergedLevelText
 	}
 	set(&zerolog.LevelFieldName, s.LevelField)
 	set(&zerolog.MessageFieldName, s.MessageField)
@@ -1036,6 +1038,18 @@ func (h hookImpl) Run(e *zerolog.Event, level zerolog.Level, msg string) {
 	}
 }
 
+// MergedLevelText is a mapping a program may well use although it is not injective: the two verbose
+// levels share a text, so do error, fatal and panic (three severities are all a downstream system knows).
+func MergedLevelText(l zerolog.Level) string {
+	switch l {
+	case zerolog.TraceLevel, zerolog.DebugLevel:
+		return "DEBUG"
+	case zerolog.ErrorLevel, zerolog.FatalLevel, zerolog.PanicLevel:
+		return "ERROR"
+	}
+	return strings.ToUpper(l.String())
+}
+
 // TotalLevelText maps every level to a non-empty text of its own (syslog-like severities).
 func TotalLevelText(l zerolog.Level) string {
 	switch l {
@@ -1181,6 +1195,11 @@ func (rt *Rt) applyStep(parent *zerolog.Logger, st Step) (zerolog.Logger, *RecWr
 		return l, nil
 	case "level":
 		return parent.Level(zerolog.Level(st.Level)), nil
+	case "updatedefault":
+		ops := st.Ops
+		dl := zerolog.Ctx(context.Background())
+		dl.UpdateContext(func(c zerolog.Context) zerolog.Context { return ApplyContext(c, ops) })
+		return *zerolog.Ctx(context.Background()), nil
 	case "viactx":
 		base := context.Background()
 		if st.N == 1 {
